@@ -4,14 +4,14 @@
 # A change counts as detected when the check exits 1 with at least one VIOLATION line. Nothing is committed in /repo.
 cd "$(dirname "$0")" || exit 2
 if ! git -C /repo diff --quiet; then echo "/repo has uncommitted changes"; exit 2; fi
-trap 'git -C /repo checkout -- .' EXIT INT TERM
+trap 'git -C /repo checkout -- .' EXIT; trap 'git -C /repo checkout -- .; exit 130' INT TERM
 for f in mutants/*.diff seeded/*/patch.diff; do
   case "$f" in *"$1"*) ;; *) continue;; esac
   case "$f" in
     mutants/*) name=$(basename "$f" .diff); prop=$(echo "$name" | cut -c1-3 | tr c C);;
     *) name=$(basename "$(dirname "$f")"); prop=$(echo "$name" | cut -c1-3);;
   esac
-  git -C /repo apply --exclude="_seed/*" "$PWD/$f" 2>/dev/null || { echo "$name $prop PATCH-DOES-NOT-APPLY"; continue; }
+  git -C /repo apply --exclude="_seed/*" "$PWD/$f" 2>/dev/null || git -C /repo apply -3 --exclude="_seed/*" "$PWD/$f" >/dev/null 2>&1 && git -C /repo reset -q || { git -C /repo reset -q; git -C /repo checkout -- .; echo "$name $prop PATCH-DOES-NOT-APPLY"; continue; }
   out=$(./run.sh "$prop" quick 2>&1); rc=$?
   n=$(echo "$out" | grep -c '^VIOLATION')
   key=$(echo "$out" | grep -m1 'key:' | sed 's/^ *key: *//' | cut -c1-110)
